@@ -1101,3 +1101,146 @@ Proof.
 Qed.
 
 End OneMore.
+
+(* ================================================================== *)
+(* Part 2b: ContractionCosts.__init__ establishes the invariant         *)
+Lemma init_ix_fold i r l : forall c,
+  fold_left (init_ix i r) l c =
+  mkCosts (c_sd c) (c_tab c) (c_nsl c) (c_orig c) (c_flops c) (c_sizes c)
+    (fold_left (fun fr j => zd_add j (r_flops r - r_flops r / sd_get j (c_sd c)) fr) l (c_fred c))
+    (fold_left (fun wr j => if memb j (r_legs r) then zd_add j (r_size r - r_size r / sd_get j (c_sd c)) wr else wr) l (c_wred c))
+    (fold_left (fun w j => wh_add j i w) l (c_where c)).
+Proof.
+  induction l as [|a l IH]; intros c; cbn [fold_left].
+  - destruct c; reflexivity.
+  - rewrite IH. unfold init_ix. destruct (memb a (r_legs r)); reflexivity.
+Qed.
+
+Lemma fold_wred_get (h : ix -> Z) legs l : forall wr j, NoDup l ->
+  zd_get0 j (fold_left (fun wr o => if memb o legs then zd_add o (h o) wr else wr) l wr)
+  = zd_get0 j wr + (if memb j l && memb j legs then h j else 0).
+Proof.
+  induction l as [|a l IH]; intros wr j ND; cbn [fold_left].
+  - cbn. lia.
+  - inversion ND as [|? ? Hn ND']; subst. rewrite IH by exact ND'. rewrite memb_cons.
+    assert (E : memb a l = false) by (apply memb_false, Hn).
+    destruct (memb a legs) eqn:Ea.
+    + rewrite zd_get0_add. destruct (Nat.eqb_spec j a) as [->|H]; cbn [orb andb].
+      * rewrite E, Ea. cbn [andb]. lia.
+      * destruct (memb j l && memb j legs); lia.
+    + destruct (Nat.eqb_spec j a) as [->|H]; cbn [orb andb].
+      * rewrite E, Ea. cbn [andb]. lia.
+      * destruct (memb j l && memb j legs); lia.
+Qed.
+
+Lemma fold_where_get0 i l : forall w j, NoDup l ->
+  wh_get0 j (fold_left (fun w o => wh_add o i w) l w)
+  = if memb j l then (let v := wh_get0 j w in if memb i v then v else v ++ [i]) else wh_get0 j w.
+Proof.
+  induction l as [|a l IH]; intros w j ND; cbn [fold_left]; [reflexivity|].
+  inversion ND as [|? ? Hn ND']; subst. rewrite IH by exact ND'. rewrite memb_cons.
+  assert (E : memb a l = false) by (apply memb_false, Hn).
+  destruct (Nat.eqb_spec j a) as [->|H]; cbn [orb].
+  - rewrite E. unfold wh_get0 at 1. rewrite wh_get_add_same. reflexivity.
+  - assert (E2 : wh_get0 j (wh_add a i w) = wh_get0 j w)
+      by (unfold wh_get0; rewrite wh_get_add_other by exact H; reflexivity).
+    rewrite E2. reflexivity.
+Qed.
+
+Lemma fold_where_nonempty i l : forall w, wh_nonempty w -> wh_nonempty (fold_left (fun w o => wh_add o i w) l w).
+Proof.
+  induction l as [|a l IH]; intros w H; cbn [fold_left]; [exact H|]. apply IH, wh_nonempty_add, H.
+Qed.
+
+Lemma involves_snoc p r j i :
+  involves (p ++ [r]) j i <-> involves p j i \/ (i = length p /\ In j (r_inv r)).
+Proof.
+  unfold involves. split.
+  - intros (r0 & Hn & Hin). destruct (Nat.lt_ge_cases i (length p)) as [Hlt|Hge].
+    + rewrite nth_error_app1 in Hn by exact Hlt. left. exists r0. tauto.
+    + rewrite nth_error_app2 in Hn by exact Hge.
+      destruct (i - length p)%nat eqn:E; cbn in Hn.
+      * injection Hn as <-. right. split; [lia|exact Hin].
+      * destruct n; discriminate.
+  - intros [(r0 & Hn & Hin)|[-> Hin]].
+    + exists r0. split; [|exact Hin]. rewrite nth_error_app1; [exact Hn|].
+      apply nth_error_Some. congruence.
+    + exists r. split; [|exact Hin]. rewrite nth_error_app2, Nat.sub_diag by lia. reflexivity.
+Qed.
+
+Lemma init_row_step sd p r c :
+  c_sd c = sd -> NoDup (r_inv r) -> derived_on p (fun _ => True) c ->
+  let c' := init_row c (length p, r) in
+  c_sd c' = sd /\ c_tab c' = c_tab c /\ c_nsl c' = c_nsl c /\ c_orig c' = c_orig c /\
+  derived_on (p ++ [r]) (fun _ => True) c'.
+Proof.
+  intros Hsd ND (Dfl & Dmc & Dne & Dj). cbn zeta. unfold init_row. rewrite init_ix_fold.
+  cbn [c_sd c_tab c_nsl c_orig c_flops c_sizes c_fred c_wred c_where set_flops set_sizes].
+  split; [exact Hsd|]. split; [reflexivity|]. split; [reflexivity|]. split; [reflexivity|].
+  unfold derived_on. cbn [c_sd c_flops c_sizes c_fred c_wred c_where].
+  split; [|split; [|split; [apply fold_where_nonempty, Dne|intros j _; split; [|split; [|split]]]]].
+  - rewrite map_app, zsum_app, Dfl. cbn [map]. rewrite zsum_cons. change (zsum []) with 0. lia.
+  - eapply mc_inv_ext; [|apply mc_inv_add, Dmc]. intros y. cbn beta.
+    rewrite map_app, count_occ_app. cbn [map count_occ].
+    destruct (Z.eq_dec (r_size r) y), (Z.eqb_spec y (r_size r)); try congruence; lia.
+  - rewrite fold_zd_add_get by exact ND. destruct (Dj j I) as (E1 & _ & _). rewrite E1.
+    unfold fred_def. rewrite map_app, zsum_app. cbn [map]. rewrite zsum_cons. change (zsum []) with 0. lia.
+  - rewrite fold_wred_get by exact ND. destruct (Dj j I) as (_ & E2 & _). rewrite E2.
+    unfold wred_def. rewrite map_app, zsum_app. cbn [map]. rewrite zsum_cons. change (zsum []) with 0. lia.
+  - destruct (Dj j I) as (_ & _ & Wnd & Win).
+    rewrite fold_where_get0 by exact ND. cbn zeta.
+    destruct (memb j (r_inv r)); [|exact Wnd].
+    destruct (memb (length p) (wh_get0 j (c_where c))) eqn:Em; [exact Wnd|].
+    apply memb_false in Em.
+    apply NoDup_rev in Wnd. rewrite <- (rev_involutive (_ ++ [length p])). apply NoDup_rev.
+    rewrite rev_app_distr. cbn. constructor; [rewrite <- in_rev; exact Em|exact Wnd].
+  - destruct (Dj j I) as (_ & _ & Wnd & Win). intros i.
+    rewrite fold_where_get0 by exact ND. cbn zeta. rewrite involves_snoc.
+    assert (Hlen : ~ In (length p) (wh_get0 j (c_where c))).
+    { intros H. apply Win in H. destruct H as (r0 & Hn & _).
+      assert (length p < length p)%nat by (apply nth_error_Some; congruence). lia. }
+    destruct (memb j (r_inv r)) eqn:Ej.
+    + apply memb_In in Ej. apply memb_false in Hlen. rewrite Hlen. rewrite in_app_iff, Win. cbn. intuition.
+    + apply memb_false in Ej. rewrite Win. intuition.
+Qed.
+
+Lemma init_fold sd : forall rest p c,
+  c_sd c = sd -> Forall (fun r => NoDup (r_inv r)) rest -> derived_on p (fun _ => True) c ->
+  let c' := fold_left init_row (combine (seq (length p) (length rest)) rest) c in
+  c_sd c' = sd /\ c_tab c' = c_tab c /\ c_nsl c' = c_nsl c /\ c_orig c' = c_orig c /\
+  derived_on (p ++ rest) (fun _ => True) c'.
+Proof.
+  induction rest as [|r rest IH]; intros p c Hsd HF Hd; cbn [length seq combine fold_left].
+  - rewrite app_nil_r. repeat (split; [reflexivity|]). split; [exact Hsd|]. repeat (split; [reflexivity|]). exact Hd.
+  - inversion HF as [|? ? Hr HF']; subst.
+    destruct (init_row_step (c_sd c) p r c eq_refl Hr Hd) as (S1 & T1 & N1 & O1 & D1).
+    specialize (IH (p ++ [r]) (init_row c (length p, r)) S1 HF' D1). cbn zeta in IH.
+    rewrite app_length in IH. cbn [length] in IH. rewrite Nat.add_1_r in IH.
+    destruct IH as (S2 & T2 & N2 & O2 & D2). rewrite <- app_assoc in D2. cbn [app] in D2.
+    split; [exact S2|]. split; [congruence|]. split; [congruence|]. split; [congruence|]. exact D2.
+Qed.
+
+Theorem cc_init_inv tab sd : Forall (row_ok sd) tab -> sd_pos sd -> NoDup (zd_keys sd) ->
+  let c := cc_init tab sd in
+  Inv c /\ c_tab c = tab /\ c_sd c = sd /\ c_nsl c = 1 /\ c_orig c = zsum (map r_flops tab).
+Proof.
+  intros Hrows Hpos HND. cbn zeta. unfold cc_init, enumerate.
+  set (c0 := mkCosts sd tab 1 0 0 mc_empty [] [] []).
+  assert (D0 : derived_on [] (fun _ => True) c0).
+  { unfold derived_on, c0. cbn. split; [reflexivity|]. split; [apply mc_inv_empty|]. split; [intros kv []|].
+    intros j _. split; [reflexivity|]. split; [reflexivity|]. split; [constructor|].
+    intros i. split; [intros []|]. intros (r & Hn & _). destruct i; discriminate. }
+  assert (HF : Forall (fun r => NoDup (r_inv r)) tab).
+  { rewrite Forall_forall in *. intros r Hr. apply (Hrows r Hr). }
+  destruct (init_fold sd tab [] c0 eq_refl HF D0) as (S1 & T1 & N1 & O1 & D1). cbn [length app] in *.
+  set (c1 := fold_left init_row (combine (seq 0 (length tab)) tab) c0) in *.
+  cbn [c_tab c_sd c_nsl c_orig set_orig].
+  destruct D1 as (Dfl & Dmc & Dne & Dj).
+  split; [|split; [exact T1|split; [exact S1|split; [exact N1|exact Dfl]]]].
+  unfold Inv. cbn [c_tab c_sd c_flops c_sizes c_fred c_wred c_where set_orig].
+  rewrite T1, S1. change (c_tab c0) with tab.
+  split; [exact Hrows|]. split; [exact Hpos|]. split; [exact HND|].
+  unfold derived_on. cbn [c_tab c_sd c_flops c_sizes c_fred c_wred c_where set_orig]. rewrite S1.
+  split; [exact Dfl|]. split; [exact Dmc|]. split; [exact Dne|]. intros j _.
+  destruct (Dj j I) as (E1 & E2 & E3). rewrite S1 in E1, E2. split; [exact E1|]. split; [exact E2|exact E3].
+Qed.
